@@ -161,6 +161,7 @@ theorem shrinks_step (op : Op) (s : Store) (h : Inv s) (hk : op.keepsKeys = true
     · exact R
     · exact withLink_pred (Shrinks s) s g a b kind _ R (fun _ _ _ _ _ => shrinks_of_nodes_eq _ _ rfl)
   | deleteGraph g => exact shrinks_filter s _ _ rfl
+  | delAllGraphs => exact shrinks_filter s _ (fun _ => false) (by simp [step, delAllGraphs])
   | mergeNodes g nid g2 pol =>
     simp only [step, mergeNodes]
     split
@@ -169,6 +170,8 @@ theorem shrinks_step (op : Op) (s : Store) (h : Inv s) (hk : op.keepsKeys = true
       split
       · exact R
       · rename_i v hv
+        split
+        · exact R
         split
         · rename_i mine theirs hmine htheirs
           have hrel : ∀ np, AMap.get graphId np = AMap.get graphId mine → AMap.get nodeId np = AMap.get nodeId mine →
@@ -293,7 +296,8 @@ theorem nid_unique_step (op : Op) (s : Store) (h : Inv s) (hk : op.keepsKeys = t
     ∀ g', UniqueNid (step op s).2 g' := by
   cases op with
   | addNode g nid label props => exact unique_addNode s h g nid label props hk hall
-  | addGraph g ig => exact unique_addGraph s g ig hall (by simpa [Op.keepsKeys] using hk)
+  | addGraph g ig => exact unique_addGraph s g ig.close hall (by simpa [Op.keepsKeys, IGraph.close] using hk)
+  | delAllGraphs => exact fun g' => (shrinks_step _ s h hk trivial).unique g' (hall g')
   | addGraphDirect g ig =>
     simp only [Op.keepsKeys, Bool.and_eq_true, List.all_eq_true, beq_iff_eq, decide_eq_true_eq] at hk
     refine unique_appendGraph _ g _ _ hk.1 (fun g' => (shrinks_delIfPresent g s).unique g' (hall g')) ?_
